@@ -664,11 +664,12 @@ func (x *Exec) phis(fr *Frame, b *ssa.BasicBlock, only map[*ssa.BasicBlock]bool)
 }
 
 func (x *Exec) block(fr *Frame, b *ssa.BasicBlock, st *State) {
-	for _, ins := range b.Instrs {
+	for idx, ins := range b.Instrs {
 		if _, ok := ins.(*ssa.Phi); ok {
 			continue
 		}
 		x.checkAsserts(fr, b, st, ins)
 		x.instr(fr, b, st, ins)
+		x.checkBindsAfter(fr, b, st, idx)
 	}
 }
